@@ -93,7 +93,7 @@ func init() {
 		Assume:      []string{"deferred functions run on every return and on panic"},
 	})
 	register(&propDef{ID: "C06",
-		Rules: []func(*Ctx){ruleDeadline, ruleGetOrCreate, ruleExpiry, ruleRunNonBlocking, ruleFreshMsg,
+		Rules: []func(*Ctx){ruleWireAgreement, ruleDeadline, ruleGetOrCreate, ruleExpiry, ruleRunNonBlocking, ruleFreshMsg,
 			ruleIDMux, ruleSlot, guardOn("MuxBroker."), scoped(ruleBoundScoped, fnIn("MuxBroker.Accept", "MuxBroker.timeoutWait", "MuxBroker.Run", "MuxBroker.Dial")), ruleAtomicIDs,
 		},
 		Technique:   "origin (def-use) resolution of the brokered id on both ends, channel-capacity check, lockset on the pending map, timer-arm classification",
@@ -112,7 +112,7 @@ func init() {
 		NotDecided:  "routing under all interleavings; that grpc-go connects to the address it was given.",
 	})
 	register(&propDef{ID: "C08",
-		Rules: []func(*Ctx){ruleMuxOnlyGRPC, ruleIDRoles, ruleDeadline, ruleLockPair, ruleGetOrCreate,
+		Rules: []func(*Ctx){ruleKnockTable, ruleMuxOnlyGRPC, ruleIDRoles, ruleDeadline, ruleLockPair, ruleGetOrCreate,
 			ruleOrderO8, ruleMuxSer, ruleSlot, ruleIDKnock, guardOn("grpcmux.", "GRPCBroker.serverStreams", "GRPCBroker.clientStreams"),
 		},
 		Technique:   "dominance query (listener registration before knock goroutine), must-held lockset for the serialised dial, channel-capacity check, id origin resolution",
